@@ -25,6 +25,14 @@ package querylog
 //vx:entry vxC07History reach=recorded,auto-flush,flushed,rotated,cleared,restarted,disabled,from-memory,from-current,from-rotated
 //vx:entry vxC07Paging reach=from-memory,from-current,from-rotated,all-three,empty-log,cursor-in-memory
 //vx:entry vxC07Params reach=negative-total,returned
+//vx:note History/Paging/Params run the REAL queryLog (newQueryLog, Add, ring buffer, flushLogBuffer/encodeEntries/flushToFile, rotate, clear, Shutdown, search, searchMemory, searchFiles, setQLogReader, seekRecord, readEntries, readNextEntry, qLogReader, qLogFile, slices.SortStableFunc) against an in-memory file system (stubs of os.OpenFile/Rename/Remove and of the *os.File methods); the flush goroutine that Add starts is run to completion before the next operation (records submitted while a flush is pending are outside)
+//vx:note SCALED CONSTANTS: maxEntrySize=4, bufferSize=8 (real: 16384, 1638400); a stored line is 2 bytes + newline: time stamp byte and record number.  The JSON encoder and the token decoder are replaced by this line format in History/Paging/Params (json.NewEncoder/Encode, decodeLogEntry, readQLogTimestamp stubs); the decoder is exercised on real lines by vxC07RoundTrip
+//vx:note time stamps are concrete and strictly increasing (the code only compares them; equal time stamps and clock steps backwards are outside); everything in History/Paging/Params is concrete per path: the engine enumerates the operation sequences and log shapes, the search parameters are looped over inside a path
+//vx:note History: config (MemSize, files) in {(0,on),(1,on),(2,on),(2,off)} quick / {(0..3,on),(1,off),(2,off)} thorough; 1..5 (quick) / 1..7 (thorough) operations from record, flush, rotate, clear, restart (Shutdown + new instance on the same files), record-while-disabled; then cursor walks with limit 1,2,3 and every offset/limit window with every stored time as older_than.  MemSize=0 without files is not a configuration of the claim (nothing is retrievable by design)
+//vx:note Paging: every distribution of 0..2 + 0..2 + 0..3 (quick) / 0..3 + 0..3 + 0..3 (thorough) records over rotated file, current file, memory; cursor walks with limit 1,2,3,4,500 x file scan cap 50000,1,2 x status filter none/blocked; every offset/limit window x every stored time as cursor x filter
+//vx:note Params: limit, offset in {0,1,2,-1,-3,2^62,-2^63,2^63-1}, older_than none / far past / far future / every nanosecond from just before the oldest to just after the newest record; only crash-freedom and soundness of the returned list are asserted there (completeness is claimed for returned cursors only: an older_than strictly inside a file that is not a stored time stamp makes the file search fail by design)
+//vx:note the cursor passes from response to request as the instant only (RFC 3339 text round trip and HTTP parameter parsing, parseSearchParams, are not executed: strconv/time.Parse of request text are outside); entriesToJSON is not executed
+//vx:note outside: records submitted while a flush is pending; rotation ageing decision (checkAndRotate/readFileFirstTimeValue: rotate() is called directly); ignore list / ignored clients (C08); anonymisation; concurrent searches; equal time stamps; files without final newline, lines >= maxEntrySize (C20)
 
 import (
 	"context"
@@ -642,10 +650,6 @@ const (
 	vxC07LabelPage = "offset/limit returns exactly that slice of the newest-first sequence of live records"
 )
 
-// vxC07Dev (development aid, must be false): leave the inputs of the known
-// findings out instead of declaring them.
-const vxC07Dev = false
-
 // checkWalks reads the whole log page by page for every page size and scan
 // cap given and compares with the reference.
 func (w *vxC07World) checkWalks(limits, scanCaps []int, filters []bool, pend []vxC07Pending) []vxC07Pending {
@@ -719,7 +723,7 @@ func (w *vxC07World) checkPages(filters []bool, pend []vxC07Pending) []vxC07Pend
 // vxC07Settle asserts the comparisons whose inputs are in the class of the
 // known finding, after declaring it (last thing on the path).
 func vxC07Settle(pend []vxC07Pending) {
-	if len(pend) == 0 || vxC07Dev {
+	if len(pend) == 0 {
 		return
 	}
 	vx.Known("C07-cursor-newer-than-files", true)
@@ -897,9 +901,6 @@ func vxC07Params() {
 	offsetGiven := vx.Choice("offsetGiven", 2) == 1
 	negative := vx.Choice("negativeTotal", 2) == 1
 	if negative {
-		if vxC07Dev {
-			return
-		}
 		// input class of the (fixed) finding: limit != 0 and offset+limit
 		// negative, overflow included
 		vx.Known("C07-negative-total-limit", true)
